@@ -198,10 +198,16 @@ func BuildHookOverlay(repo string, hooks []HookSpec, substs []SubstSpec) (map[st
 			}
 			// the local name under which the package is imported in this file
 			local := ""
+			exact := false // an import whose whole path is the wanted one wins over one that merely ends in it ("net" vs ".../go-multiaddr/net")
+			for _, im := range fe.file.Imports {
+				if strings.Trim(im.Path.Value, "\"") == parts[0] {
+					exact = true
+				}
+			}
 			for _, im := range fe.file.Imports {
 				ip := strings.Trim(im.Path.Value, "\"")
 				base := ip[strings.LastIndex(ip, "/")+1:]
-				if base == parts[0] || ip == parts[0] {
+				if (!exact && base == parts[0]) || ip == parts[0] {
 					local = base
 					if im.Name != nil {
 						local = im.Name.Name
